@@ -235,31 +235,25 @@ theorem si_units_are_one (q : ℕ) (hq : q < siNames.length) :
   rw [hnth]
   exact getUnit_one n (List.all_eq_true.1 hall n hn)
 
-/-- **`operator^=`** for every unit and every NON-ZERO integer exponent: the value is the integer
-power, every dimension exponent is multiplied by the exponent. -/
-theorem pow_spec (u : Unit ℚ) (p : ℤ) (hp : p ≠ 0) :
+/-- **`operator^=`** for every unit and EVERY integer exponent (positive, negative, zero): the
+value is the integer power, every dimension exponent is multiplied by the exponent.
+(Until /repo commit 6c2926b the case `p = 0` kept the value of `x` instead of giving 1 — found by
+this check, oracle `units-pow-zero`; the model follows the fixed code.) -/
+theorem pow_spec (u : Unit ℚ) (p : ℤ) :
     (u.pow p).value = u.value ^ p ∧ (u.pow p).length = u.length * p ∧ (u.pow p).time = u.time * p ∧
     (u.pow p).mass = u.mass * p ∧ (u.pow p).temperature = u.temperature * p ∧
     (u.pow p).current = u.current * p ∧ (u.pow p).angle = u.angle * p :=
-  ⟨Unit.powValue_zpow u.value p hp, rfl, rfl, rfl, rfl, rfl, rfl⟩
+  ⟨Unit.powValue_zpow u.value p, rfl, rfl, rfl, rfl, rfl, rfl⟩
 
-/-- **Exponent 0 (defect of the code, mirrored by the model)**: `x^0` keeps the value of `x`
-instead of giving 1, while all dimension exponents become 0: `kpc^0` is a dimensionless 3.086e19. -/
-theorem pow_zero_keeps_value (u : Unit ℚ) :
-    (u.pow 0).value = u.value ∧ (u.pow 0).length = 0 ∧ (u.pow 0).time = 0 ∧ (u.pow 0).mass = 0 ∧
-    (u.pow 0).temperature = 0 ∧ (u.pow 0).current = 0 ∧ (u.pow 0).angle = 0 := by
-  simp [Unit.pow, Unit.powValue_zero]
-
-/-- so `pow_spec` cannot be extended to `p = 0`: `get_unit("kpc^0")` is a dimensionless unit whose
-value is that of `kpc`, not 1 -/
-theorem pow_zero_is_not_one :
-    (getUnit ['k','p','c','^','0'] : Option (Unit ℚ)) = some ⟨uval ['k','p','c'], 0, 0, 0, 0, 0, 0⟩ ∧
-    uval ['k','p','c'] ≠ 1 := by
+/-- in particular `x^0` is the dimensionless unit 1, e.g. `get_unit("kpc^0")` -/
+theorem pow_zero_is_one :
+    (∀ u : Unit ℚ, u.pow 0 = ⟨1, 0, 0, 0, 0, 0, 0⟩) ∧
+    (getUnit ['k','p','c','^','0'] : Option (Unit ℚ)) = some ⟨1, 0, 0, 0, 0, 0, 0⟩ := by
   have h : scanUnits ['k','p','c','^','0'] = some [⟨['k','p','c'], some 0⟩] := by decide
   constructor
+  · intro u; simp [Unit.pow, Unit.powValue_zero]
   · simp [getUnit, h, getUnitToks, mulToks, evalTok, getSingleUnit, lookup, table, ofEntry, OfDbl.ofDbl,
-      Unit.pow, Unit.powValue, Unit.mulLoop, uval]
-  · simp [uval, getSingleUnit, lookup, table, ofEntry, OfDbl.ofDbl]
+      Unit.pow, Unit.powValue_zero]
 
 /-- **A compound unit is the product of its parts** (grammar of `get_unit` on tokens, exact
 arithmetic): the unit of `ts1 ++ ts2` is the `*=` product of the units of `ts1` and of `ts2`. -/
